@@ -457,3 +457,206 @@ c03_struct!(c03_struct_n1, 1, 48, 12);
 c03_struct!(c03_struct_n2, 2, 94, 18);
 c03_struct!(c03_struct_n3, 3, 140, 24);
 c03_struct!(c03_struct_n4, 4, 186, 30);
+
+// ---------------------------------------------------------------------------
+// C07 (thorough): encode_rmi writes flag k of the data into digit k / 6, bit k % 6,
+// trimming trailing all-zero digits (at least one digit is written).
+fn c07_rmi_encode_body<const N: usize>() {
+    let data: [u8; N] = kani::any();
+    let mut out: Vec<u8> = Vec::with_capacity(8);
+    encode_rmi(&mut out, &data);
+    // reference: index of the last set flag
+    let mut last = 0usize;
+    let mut k = 0;
+    while k < 8 * N {
+        if (data[k / 8] >> (k % 8)) & 1 == 1 {
+            last = k;
+        }
+        k += 1;
+    }
+    let ndig = last / 6 + 1;
+    assert!(out.len() == ndig, "C07/rmi-encode-digit-count");
+    let mut j = 0;
+    while j < ndig && j < out.len() {
+        let d = ref_b64(out[j]);
+        assert!(d >= 0, "C07/rmi-encode-alphabet");
+        let mut b = 0;
+        while b < 6 {
+            let k = 6 * j + b;
+            let want = k <= last && k < 8 * N && (data[k / 8] >> (k % 8)) & 1 == 1;
+            assert!(((d >> b) & 1 == 1) == want, "C07/rmi-encode-bit-layout");
+            b += 1;
+        }
+        j += 1;
+    }
+    kani::cover!(ndig == 2, "two digits");
+    forget(out);
+}
+
+#[kani::proof]
+#[kani::unwind(10)]
+#[kani::stub(std::vec::Vec::push, crate::vstubs::vec_push)]
+fn c07_rmi_encode_n1() {
+    c07_rmi_encode_body::<1>()
+}
+
+#[kani::proof]
+#[kani::unwind(18)]
+#[kani::stub(std::vec::Vec::push, crate::vstubs::vec_push)]
+fn c07_rmi_encode_n2() {
+    c07_rmi_encode_body::<2>()
+}
+
+// C07 (thorough): serialize_range_mappings records each range flag at the token's index
+// within its own line.  Reference reader: ';' separates lines, digit j bit b = flag 6j+b.
+fn c07_ser_flags_body<const N: usize>() {
+    let mut toks = [wf_token(16); N];
+    let mut i = 0;
+    while i < N {
+        let mut t = wf_token(16);
+        t.is_range = kani::any();
+        kani::assume(t.dst_line <= 1);
+        if i > 0 {
+            kani::assume((toks[i - 1].dst_line, toks[i - 1].dst_col) < (t.dst_line, t.dst_col));
+        }
+        toks[i] = t;
+        i += 1;
+    }
+    let mut v = Vec::with_capacity(N + 1);
+    let mut i = 0;
+    while i < N {
+        v.push(toks[i]);
+        i += 1;
+    }
+    let sm = mk_map(v, 2, 2);
+    let out = serialize_range_mappings(&sm);
+    let mut any_range = false;
+    let mut i = 0;
+    while i < N {
+        any_range = any_range || toks[i].is_range;
+        i += 1;
+    }
+    assert!(out.is_some() == any_range, "C07/range-mappings-key-present-iff-any-range-token");
+    if let Some(ref s) = out {
+        let b = s.as_bytes();
+        assert!(b.len() <= 4, "verif: harness bound on rangeMappings length");
+        // read back: flag of token (line l, index-in-line x)
+        let mut i = 0;
+        while i < N {
+            let l = toks[i].dst_line;
+            let mut x = 0usize;
+            let mut j = 0;
+            while j < i {
+                if toks[j].dst_line == l {
+                    x += 1;
+                }
+                j += 1;
+            }
+            // find the start of line l in the string
+            let mut pos = 0usize;
+            let mut line = 0u32;
+            while pos < b.len() && line < l {
+                if b[pos] == b';' {
+                    line += 1;
+                }
+                pos += 1;
+            }
+            let mut flag = false;
+            if line == l {
+                let dpos = pos + x / 6;
+                let mut within = dpos < b.len();
+                let mut q = pos;
+                while q < dpos && q < b.len() {
+                    if b[q] == b';' {
+                        within = false;
+                    }
+                    q += 1;
+                }
+                if within && b[dpos] != b';' {
+                    let d = ref_b64(b[dpos]);
+                    assert!(d >= 0, "C07/range-mappings-alphabet");
+                    flag = (d >> (x % 6)) & 1 == 1;
+                }
+            }
+            assert!(flag == toks[i].is_range, "C07/range-flag-recorded-at-index-within-own-line");
+            i += 1;
+        }
+    }
+    if N >= 2 {
+        kani::cover!(toks[1].is_range && toks[1].dst_line == 1 && toks[0].dst_line == 0, "first-on-line range token on line 1");
+        kani::cover!(toks[1].is_range && toks[1].dst_line == toks[0].dst_line && !toks[0].is_range, "second on its line");
+    }
+    forget(out);
+    forget(sm);
+}
+
+#[kani::proof]
+#[kani::unwind(8)]
+#[kani::stub(std::vec::Vec::push, crate::vstubs::vec_push)]
+fn c07_ser_flags_n1() {
+    c07_ser_flags_body::<1>()
+}
+
+#[kani::proof]
+#[kani::unwind(8)]
+#[kani::stub(std::vec::Vec::push, crate::vstubs::vec_push)]
+fn c07_ser_flags_n2() {
+    c07_ser_flags_body::<2>()
+}
+
+// ---------------------------------------------------------------------------
+// C03: raw-map fields carry the map's values; absent values give None (hence, by the
+// skip_serializing_if attributes of RawSourceMap, no key rather than null).
+#[kani::proof]
+#[kani::unwind(6)]
+fn c03_rawmap() {
+    let mut sm = mk_map(Vec::with_capacity(1), 2, 1);
+    let has_file: bool = kani::any();
+    let has_root: bool = kani::any();
+    let has_did: bool = kani::any();
+    let has_ign: bool = kani::any();
+    let has_content: bool = kani::any();
+    if has_file {
+        sm.file = Some("f".into());
+    }
+    if has_root {
+        sm.source_root = Some("r".into());
+    }
+    if has_did {
+        sm.debug_id = Some(debugid::DebugId::default());
+    }
+    if has_ign {
+        sm.ignore_list.insert(1);
+    }
+    if has_content {
+        sm.sources_content.push(None);
+        sm.sources_content.push(Some(crate::sourceview::SourceView::new("c".into())));
+    }
+    let raw = sm.as_raw_sourcemap();
+    assert!(raw.version == Some(3), "C03/raw-version-3");
+    assert!(raw.file.is_some() == has_file, "C03/raw-file-present-iff-set");
+    assert!(raw.source_root.is_some() == has_root, "C03/raw-source-root-present-iff-set");
+    assert!(raw.debug_id.is_some() == has_did, "C03/raw-debug-id-present-iff-set");
+    assert!(raw._debug_id_new.is_none(), "C03/raw-only-one-debug-id-key");
+    assert!(raw.ignore_list.is_some() == has_ign, "C03/raw-ignore-list-present-iff-non-empty");
+    assert!(raw.sources_content.is_some() == has_content, "C03/raw-contents-present-iff-any");
+    assert!(raw.sections.is_none() && raw.x_facebook_sources.is_none() && raw.x_facebook_offsets.is_none()
+        && raw.x_metro_module_paths.is_none(), "C03/raw-no-foreign-keys");
+    assert!(raw.range_mappings.is_none(), "C03/raw-no-range-mappings-without-range-tokens");
+    assert!(raw.mappings.as_ref().map(|m| m.len()) == Some(0), "C03/raw-mappings-always-present");
+    assert!(raw.sources.as_ref().map(|s| s.len()) == Some(2), "C03/raw-sources-carried");
+    assert!(raw.names.as_ref().map(|s| s.len()) == Some(1), "C03/raw-names-carried");
+    if let Some(ref il) = raw.ignore_list {
+        assert!(il.len() == 1 && il[0] == 1, "C03/raw-ignore-list-values");
+    }
+    if let Some(ref sc) = raw.sources_content {
+        assert!(sc.len() == 2 && sc[0].is_none() && sc[1].as_ref().map(|s| s.len()) == Some(1), "C03/raw-contents-values");
+    }
+    if let Some(ref r) = raw.source_root {
+        assert!(r.as_bytes() == b"r", "C03/raw-source-root-value");
+    }
+    kani::cover!(has_file && has_root && has_did && has_ign && has_content, "everything present");
+    kani::cover!(!has_file && !has_root && !has_did && !has_ign && !has_content, "nothing present");
+    forget(raw);
+    forget(sm);
+}
